@@ -100,4 +100,12 @@ def bilinearAt (add mul : α → α → α) (x y w : Idx → α) (I J b o : Nat)
       (Reduce.foldFirst add none ((List.range I).map fun i => mul (x [b, i]) (w [o, i, j]))).map fun S => mul S (y [b, j])).bind
     fun terms => Reduce.foldFirst add none terms
 
+/-- the same for inputs `x : lead ++ [I]`, `y : lead ++ [J]` with any number of leading axes, output `p ++ [o]` (`p` an index
+    of the leading axes): `Σ_j (Σ_i x[p,i]·w[o,i,j]) · y[p,j]`, every sum a left fold from its first term.
+    `bilinearAt … b o` is `bilinearAtL … [b] o`. -/
+def bilinearAtL (add mul : α → α → α) (x y w : Idx → α) (I J : Nat) (p : Idx) (o : Nat) : Option α :=
+  ((List.range J).mapM fun j =>
+      (Reduce.foldFirst add none ((List.range I).map fun i => mul (x (p ++ [i])) (w [o, i, j]))).map fun S => mul S (y (p ++ [j]))).bind
+    fun terms => Reduce.foldFirst add none terms
+
 end NmVerif.NN
